@@ -36,10 +36,10 @@ PROPS = {
     "C01": {"props_file": "Props/C01.v", "families": ["hist"], "design_ref": "DESIGN.md §8 C01",
             "level_text": "Theorem c01_history_refines: for every element type, configuration and EVERY finite history of the 24 list operations (unbounded length, by induction) the raw-slot model of stack.go (whose guards are regenerated from /repo by the translator) never panics, stays well-formed and returns/ends exactly like the ordered-list specification. The model is tied to the code by the hist family (exhaustive short + random long histories, full re-observation after every mutator) evaluated in Coq against model and specification.",
             "technique": "Coq refinement proof (induction over histories) over a partly regenerated model + differential correspondence check"},
-    "C03": {"props_file": "Props/C03.v", "families": ["hist", "transfer"], "design_ref": "DESIGN.md §8 C03",
+    "C03": {"props_file": "Props/C03.v", "families": ["hist", "transfer", "policy"], "design_ref": "DESIGN.md §8 C03",
             "level_text": "Theorems c03_*: every state reachable from a constructor with capacity k by any history holds <= k elements and answers Len/Cap/Avail/IsFull with n, k, k-n, n==k; without capacity -1/-1/false; Push keeps the earliest offered values; Insert on a full stack is a no-op. Proved from the refinement theorem plus a capacity invariant of the specification.",
             "technique": "Coq invariant proof over all histories (corollary of the refinement theorem) + differential correspondence check"},
-    "C08": {"props_file": "Props/C08.v", "families": ["indexsweep", "awkward"], "design_ref": "DESIGN.md §8 C08",
+    "C08": {"props_file": "Props/C08.v", "families": ["indexsweep", "awkward", "hist"], "design_ref": "DESIGN.md §8 C08",
             "level_text": "Index part proved: every history with arbitrary Go-int indices (MinInt/MaxInt included) runs without Panic in the regenerated raw-slot model and never reads or overwrites the configuration slot; non-addressing indices make Index/Remove/Replace/Swap fail with the state untouched; -k / oversize indices address what the options promise. Value part: panics on awkward Go values live in reflect and cannot be proved over a model of Go; it is decided by the exhaustive awkward-value family (24 methods x 52 values x receiver states + observer battery) and, for the two alias converters, by the theorems of C12.",
             "technique": "Coq proof over the regenerated index/guard fragments (all ints) + exhaustive boundary sweep and awkward-value differential families",
             "assumptions": ["the value part (arbitrary Go values through reflect) is covered by exhaustive enumeration of a 52-value catalogue, not by a theorem"]},
